@@ -27,6 +27,11 @@ taken when run.py starts). `--in-place` runs `./check` in /verif itself as a use
 the evidence file and the replay files of the property are copied aside before each check and
 put back / deleted right after it.
 
+Baseline. Before the first mutant of a property, the unmodified tree is checked once in the same
+place (`./check <ID>` without overlay); exit status and signatures are stored under "baselines"
+(re-used by later invocations as long as /repo and the harness sources are unchanged). A mutant
+counts as detected only if its check exits 1 AND reports a signature the baseline did not.
+
 Output: selftest/results.json (machine readable, merged by mutant id when --only is used)
 and selftest/RESULTS.md. Exit status 0 iff every non-pending, non-stale mutant that was run
 was detected (check exit 1).
@@ -141,7 +146,7 @@ class Guard:
         return False
 
 
-def run_check(m, ov, root, tier, in_place):
+def run_check(m, ov, root, tier, in_place, base_sigs):
     pid = m["property"]
     env = dict(BASE_ENV, VERIF_OVERLAY=ov)
     res = {}
@@ -155,7 +160,8 @@ def run_check(m, ov, root, tier, in_place):
         res["known_findings_reported"] = len(re.findall(r"^KNOWN-FINDING:", out, re.M))
         summ = re.findall(r"^%s tier=.*$" % pid, out, re.M)
         res["summary"] = summ[-1] if summ else ""
-        res["detected"] = rc == 1
+        res["new_signatures"] = [x for x in res["signatures"] if x not in base_sigs]
+        res["detected"] = rc == 1 and bool(res["new_signatures"])
         if rc not in (0, 1):
             res["check_tail"] = out[-3000:]
         first = re.search(r"^  detail: (.*)$", out, re.M)
@@ -176,11 +182,41 @@ def run_check(m, ov, root, tier, in_place):
     return res
 
 
+def tree_key():
+    """Identifies the state of /repo and of the framework sources a baseline belongs to."""
+    h = hashlib.sha1()
+    for cmd in (["git", "-C", REPO, "rev-parse", "HEAD"], ["git", "-C", REPO, "status", "--porcelain"]):
+        h.update(subprocess.run(cmd, stdout=subprocess.PIPE).stdout)
+    for d in ("engine", "harness"):
+        for base, dirs, files in sorted(os.walk(os.path.join(VERIF, d))):
+            dirs.sort()
+            for f in sorted(files):
+                if f.endswith((".go", ".py", ".json")):
+                    h.update(f.encode())
+                    h.update(open(os.path.join(base, f), "rb").read())
+    h.update(open(os.path.join(VERIF, "check"), "rb").read())
+    h.update(open(os.path.join(VERIF, "known_findings.json"), "rb").read())
+    return h.hexdigest()[:16]
+
+
+def run_baseline(pid, root, tier, in_place):
+    with Guard(root, pid, in_place):
+        rc, out, wall = run(["./check", pid, "--tier", tier], root, BASE_ENV, CHECK_TIMEOUT)
+    summ = re.findall(r"^%s tier=.*$" % pid, out, re.M)
+    b = {"check_exit": rc if rc is not None else "timeout", "wall_s": round(wall, 1),
+         "signatures": re.findall(r"^  signature: (.*)$", out, re.M),
+         "known_findings_reported": len(re.findall(r"^KNOWN-FINDING:", out, re.M)),
+         "summary": summ[-1] if summ else ""}
+    if rc != 0:
+        b["tail"] = out[-2000:]
+    return b
+
+
 def yn(v):
     return {True: "yes", False: "NO", None: "-"}[v]
 
 
-def write_md(results, meta):
+def write_md(results, meta, baselines):
     L = ["# Self-test of the framework: mutants of go-perun", "",
          "Generated by `selftest/run.py` (%s). Mutants are applied through a go build overlay; `/repo` is never modified." % meta["when"],
          "`/repo` HEAD: `%s`. Tier: %s. Checks run %s. Total wall time of the last full run: %s." % (
@@ -201,6 +237,10 @@ def write_md(results, meta):
         L.append("| %s | %d | %d | %s | %d |" % (pid, len(rs), sum(1 for r in rs if r["detected"]),
                  ", ".join(r["id"] for r in rs if not r["detected"]) or "-",
                  sum(1 for r in rs if r["detected"] and r.get("repo_tests", {}).get("pass"))))
+    L += ["", "## Baselines (unmodified tree, same place, same tier)", "", "| property | check exit | violations | known findings reported | wall s |", "|---|---|---|---|---|"]
+    for pid in sorted(baselines):
+        b = baselines[pid]
+        L.append("| %s | %s | %s | %d | %s |" % (pid, b["check_exit"], "<br>".join("`%s`" % x for x in b["signatures"][:3]) or "-", b["known_findings_reported"], b["wall_s"]))
     L += ["", "## Mutants", "",
           "| mutant | property | what | repo tests pass? | check exit | detected? | signatures (first 3 of n) | replay reproduces? | wall s |",
           "|---|---|---|---|---|---|---|---|---|"]
@@ -239,6 +279,7 @@ def main():
     ap.add_argument("--skip-repo-tests", action="store_true")
     ap.add_argument("--in-place", action="store_true", help="run ./check in /verif itself (evidence/replays are restored afterwards)")
     ap.add_argument("--tier", default="quick")
+    ap.add_argument("--rebaseline", action="store_true", help="re-run the baselines even if /repo and the harnesses are unchanged")
     a = ap.parse_args()
     t_all = time.time()
     mutants = json.load(open(os.path.join(HERE, "mutants.json")))["mutants"]
@@ -255,6 +296,13 @@ def main():
             j = json.load(open(res_path))
             old = {r["id"]: r for r in j["results"]}
             old_meta = j.get("meta", {})
+        except Exception:
+            pass
+    key = tree_key() + ("-inplace" if a.in_place else "") + "-" + a.tier
+    baselines = {}
+    if not a.rebaseline:
+        try:
+            baselines = {p: b for p, b in json.load(open(res_path)).get("baselines", {}).items() if b.get("key") == key}
         except Exception:
             pass
     new = {}
@@ -286,13 +334,19 @@ def main():
             r["status"], r["note"] = "does-not-compile", r["repo_tests"]["tail"][-400:]
             new[m["id"]] = r
             continue
-        r.update(run_check(m, ov, root, a.tier, a.in_place))
+        if m["property"] not in baselines:
+            log("   baseline of %s (unmodified tree)" % m["property"])
+            baselines[m["property"]] = dict(run_baseline(m["property"], root, a.tier, a.in_place), key=key)
+            log("   baseline exit=%s sigs=%d wall=%.0fs" % (baselines[m["property"]]["check_exit"],
+                len(baselines[m["property"]]["signatures"]), baselines[m["property"]]["wall_s"]))
+        r["baseline_exit"] = baselines[m["property"]]["check_exit"]
+        r.update(run_check(m, ov, root, a.tier, a.in_place, set(baselines[m["property"]]["signatures"])))
         log("   check exit=%s detected=%s sigs=%d replay=%s wall=%.0fs" % (
             r["check_exit"], r["detected"], len(r["signatures"]), r["replay_reproduces"], r["check_wall_s"]))
         new[m["id"]] = r
         # keep partial results on disk
         merged = [new.get(x["id"]) or old.get(x["id"]) for x in mutants]
-        json.dump({"meta": old_meta, "results": [x for x in merged if x]}, open(res_path, "w"), indent=1)
+        json.dump({"meta": old_meta, "baselines": baselines, "results": [x for x in merged if x]}, open(res_path, "w"), indent=1)
     wall = time.time() - t_all
     head = subprocess.run(["git", "-C", REPO, "log", "-1", "--format=%h %s"], stdout=subprocess.PIPE, text=True).stdout.strip()
     meta = dict(old_meta)
@@ -302,8 +356,8 @@ def main():
         meta["full_run_wall"] = "%.0f s (%.1f min)" % (wall, wall / 60)
     merged = [new.get(x["id"]) or old.get(x["id"]) for x in mutants]
     merged = [x for x in merged if x]
-    json.dump({"meta": meta, "results": merged}, open(res_path, "w"), indent=1)
-    write_md(merged, meta)
+    json.dump({"meta": meta, "baselines": baselines, "results": merged}, open(res_path, "w"), indent=1)
+    write_md(merged, meta, baselines)
     ran = [r for r in new.values() if not r["pending"] and r["status"] == "ok"]
     missed = [r["id"] for r in ran if not r.get("detected")]
     log("ran %d mutants in %.0fs: %d detected, missed: %s" % (len(ran), wall, len(ran) - len(missed), missed or "none"))
